@@ -114,7 +114,8 @@ func CrashMain(args []string) {
 		os.Exit(crashExit) // the process dies here: nothing is flushed, closed or unwound
 	}
 	dec := &crashRepo{ClockedRepo: repo, h: h}
-	actErr := sc.Act(&Ctx{Repo: dec, Raw: repo, Meta: req.Meta})
+	wrap := func(r repository.ClockedRepo) repository.ClockedRepo { return &crashRepo{ClockedRepo: r, h: h} }
+	actErr := sc.Act(&Ctx{Repo: dec, Raw: repo, Meta: req.Meta, Path: req.RepoPath, Wrap: wrap})
 	info := crashInfo{Log: h.log}
 	if actErr != nil {
 		info.ActErr = actErr.Error()
@@ -203,7 +204,8 @@ func redo(sc *Scenario, path string, meta Meta) string {
 	vctl.SetActor("redo")
 	// the same nonces and stamps for every repetition, so that repetitions are comparable
 	vctl.SetCounters(nil, nil)
-	if err := sc.Act(&Ctx{Repo: repo, Raw: repo, Meta: meta}); err != nil {
+	same := func(r repository.ClockedRepo) repository.ClockedRepo { return r }
+	if err := sc.Act(&Ctx{Repo: repo, Raw: repo, Meta: meta, Path: path, Wrap: same}); err != nil {
 		return err.Error()
 	}
 	return ""
